@@ -19,7 +19,11 @@ RULE = ("cases = (sample_depth in {1,2,5,32,100} (+3,4,7,8,16,33 thorough), samp
         "(random half periods 1-3 cycles) triggers, waits for the capture and reads depth-1 .. depth+2 words per "
         "chip-select window, re-reads and re-captures; a quarter of the windows break the read-out conditions on "
         "purpose (trigger during the read-out, chip select dropped in mid-word, short chip-select gap) and are "
-        "compared against the model only")
+        "compared against the model only; kind 3 = AsyncSerialILA, depths {1,2,3,5} (+4,8 thorough) x divisors "
+        "{1,2,3} (+5,7) x probe widths 1/14/24 bits (1/2/4 bytes per sample), the four trigger patterns (also during "
+        "capture and read-out) followed by a trigger-free tail long enough for the last read-out; tx, sampling, complete "
+        "and the internal stream handshake between StreamILA and the UART transmitter are compared with the model; "
+        "the monitor decodes tx with an independent 8N1 receiver")
 ASSUMPTIONS = ["sample_depth >= 1", "captured_sample_number < sample_depth (addresses beyond a non-power-of-two depth are not driven)",
                "StreamILA: o_domain == domain (no clock-domain-crossing FIFO between the read-out FSM and the stream)",
                "SyncSerialILA monitor (judged chip-select windows): no capture running and no trigger from 2 cycles before "
@@ -40,6 +44,7 @@ PARTIAL = ("the IntegratedLogicAnalyzer core, the StreamILA read-out (same clock
 
 WIDTHS = [1, 8, 5]
 TOTAL = sum(WIDTHS)
+UART_WIDTHS = [[1], [1, 8, 5], [1, 8, 5, 10]]     # bits_per_sample 1 / 16 / 32 -> 1 / 2 / 4 bytes per sample
 
 
 def gen_cases(tier, rng):
@@ -69,6 +74,17 @@ def gen_cases(tier, rng):
                 out.append({"kind": 2, "depth": D, "pre": k % 4, "pol": mode >> 1, "phase": mode & 1,
                             "domain": "usb" if k % 5 == 4 else "sync", "seed": rng.u64(), "k": k})
                 k += 1
+    # AsyncSerialILA (kind 3): UART read-out; probe widths 1 / 14 / 24 bits -> bytes_per_sample 1 / 2 / 4
+    udepths = [1, 2, 3, 5] if tier != "thorough" else [1, 2, 3, 4, 5, 8]
+    udivs = [1, 2, 3] if tier != "thorough" else [1, 2, 3, 5, 7]
+    uper = {"quick": 1, "widen": 2, "thorough": 2}[tier]
+    for D in udepths:
+        for dv in udivs:
+            for wi in range(3):
+                for _ in range(uper):
+                    out.append({"kind": 3, "depth": D, "pre": k % 4, "divisor": dv, "widths": UART_WIDTHS[wi],
+                                "domain": "usb" if k % 5 == 4 else "sync", "seed": rng.u64(), "k": k})
+                    k += 1
     return out
 
 
@@ -160,6 +176,8 @@ def run_case(desc):
         return run_stream_case(desc)
     if desc.get("kind", 0) == 2:
         return run_spi_case(desc)
+    if desc.get("kind", 0) == 3:
+        return run_uart_case(desc)
     from amaranth import Signal
     from luna.gateware.debug.ila import IntegratedLogicAnalyzer
     D, p, dom = desc["depth"], desc["pre"], desc.get("domain", "sync")
@@ -516,3 +534,163 @@ def run_spi_case(desc):
                  "p-read-past-depth" if stats["over"] else "p-not-past-depth"]
     return Case([2, D, p, dut.bits_per_word, pol, phase], stim, rows, fails, tags, desc,
                 ["trigger", "inputs", "spi.sck", "spi.sdi", "spi.cs"], ["sampling", "complete", "spi.sdo"])
+
+
+# ---------------------------------------------------------------------------------------------------------------
+# AsyncSerialILA: the captured samples read back over a UART (StreamILA + UARTMultibyteTransmitter)
+# ---------------------------------------------------------------------------------------------------------------
+
+def make_uart_stimulus(D, p, dv, nbytes, total, rng, k):
+    """Triggers in the four patterns of the other kinds (sparse / held high / bursts / random, also during capture
+    and read-out) for a while, then a trigger-free tail long enough for every started read-out to be completely on
+    the line."""
+    word = nbytes * 10 * dv
+    readout = D * word
+    active = 2 * (D + 4 + readout) + rng.range(0, 40)
+    tail = D + 6 + readout + 2 * word + 12
+    tmode = k % 4
+    imode = (k // 4) % 2
+    rows = []
+    burst = 0
+    for t in range(active + tail):
+        if t >= active:
+            trig = 0
+        elif tmode == 0:
+            trig = int(rng.chance(max(1, 300 // (D + 6 + readout))))
+        elif tmode == 1:
+            trig = 1
+        elif tmode == 2:
+            if burst > 0:
+                burst -= 1
+                trig = 1
+            else:
+                trig = 0
+                if rng.chance(4):
+                    burst = rng.range(1, D + 3)
+        else:
+            trig = int(rng.chance(30))
+        if t < 3 and rng.chance(50):
+            trig = 0
+        inputs = rng.bits(total) if imode == 0 else ((t * 0x9E3779B1 + 5) & ((1 << total) - 1))
+        rows.append([trig, inputs])
+    return rows
+
+
+def decode_8n1(tx, dv):
+    """An independent 8N1 receiver on the recorded line: idle high; a low cycle while idle starts a frame of 10 bit
+    periods of `dv` cycles each; every cycle of a bit period must carry the same level (each bit is held for exactly
+    `dv` cycles); the stop bit must be high.  Returns ([(start_cycle, byte)], framing_error or None)."""
+    out = []
+    t, L = 0, len(tx)
+    while t < L:
+        if tx[t]:
+            t += 1
+            continue
+        if t + 10 * dv > L:
+            return out, (t, "the trace ends inside a frame")
+        bits = []
+        for b in range(10):
+            seg = tx[t + b * dv: t + (b + 1) * dv]
+            if any(v != seg[0] for v in seg):
+                return out, (t + b * dv, "bit %d of the frame starting in cycle %d is not held for %d cycles" % (b, t, dv))
+            bits.append(seg[0])
+        if bits[9] != 1:
+            return out, (t + 9 * dv, "stop bit of the frame starting in cycle %d is low" % t)
+        out.append((t, sum(bits[1 + j] << j for j in range(8))))
+        t += 10 * dv
+    return out, None
+
+
+def monitor_uart(D, p, dv, nbytes, stim, rows):
+    """The property on the real AsyncSerialILA trace: the bytes an 8N1 receiver decodes from `tx` over the whole trace
+    are, capture after capture, the little-endian bytes of the D consecutive (delayed) samples that followed each
+    accepted trigger, in order, each once; `sampling` / `complete` as for the core.  A trigger is accepted when no
+    capture / read-out is in progress; the end of a read-out (hand-over of the last word to the transmitter) is
+    taken from the real gateware's internal stream handshake."""
+    fails = []
+
+    def fail(t, sig, what):
+        fails.append({"cycle": t, "sig": sig, "what": "AsyncSerialILA depth=%d pretrigger=%d divisor=%d bytes=%d cycle %d: %s"
+                      % (D, p, dv, nbytes, t, what)})
+
+    busy, start, complete, handed = False, None, 0, 0
+    expected = []            # all samples of all captures, in order
+    stats = {"captures": 0, "readouts": 0, "blocked": 0}
+    for t, (i, o) in enumerate(zip(stim, rows)):
+        trig = i[0] & 1
+        sampling, cpl, _tx, valid, ready, _payload = o
+        capturing = busy and start <= t < start + D
+        delayed = stim[t - p][1] if t - p >= 0 else 0
+        if sampling != int(capturing):
+            fail(t, "uart-sampling-window", "sampling=%d requires %d" % (sampling, int(capturing)))
+            return fails, stats
+        if cpl != complete:
+            fail(t, "uart-complete-flag", "complete=%d requires %d" % (cpl, complete))
+            return fails, stats
+        done_now = False
+        if valid and ready:
+            handed += 1
+            if busy and handed == D:
+                done_now = True
+        if capturing:
+            expected.append(delayed)
+            if t - start == D - 1:
+                complete = 1
+        if busy and trig:
+            stats["blocked"] += 1
+        if done_now:
+            busy = False
+            stats["readouts"] += 1
+        elif not busy and trig:
+            busy, start, complete, handed = True, t + 1, 0, 0
+            stats["captures"] += 1
+    got, err = decode_8n1([r[2] for r in rows], dv)
+    if err is not None:
+        fail(err[0], "uart-framing", err[1])
+        return fails, stats
+    want = []
+    for v in expected:
+        want.extend((v >> (8 * j)) & 0xFF for j in range(nbytes))
+    stats["bytes"] = len(got)
+    for n, (t0, b) in enumerate(got):
+        if n >= len(want):
+            fail(t0, "uart-extra-byte", "byte %d (%#04x) on the line, but only %d bytes were captured" % (n, b, len(want)))
+            return fails, stats
+        if b != want[n]:
+            fail(t0, "uart-byte", "byte %d on the line is %#04x; byte %d of recorded sample %d (little-endian) is %#04x"
+                 % (n, b, n % nbytes, n // nbytes, want[n]))
+            return fails, stats
+    if len(got) != len(want):
+        fail(len(rows) - 1, "uart-missing-bytes", "%d bytes on the line at the end of the trace, %d samples x %d bytes were "
+             "captured (the trace ends with a trigger-free tail long enough for the whole read-out)"
+             % (len(got), len(expected), nbytes))
+    return fails, stats
+
+
+def run_uart_case(desc):
+    from amaranth import Signal
+    from luna.gateware.debug.ila import AsyncSerialILA
+    D, p, dom, dv = desc["depth"], desc["pre"], desc.get("domain", "sync"), desc["divisor"]
+    widths = desc.get("widths", WIDTHS)
+    total = sum(widths)
+    sigs = [Signal(w, name="probe%d" % j) for j, w in enumerate(widths)]
+    dut = AsyncSerialILA(signals=sigs, sample_depth=D, divisor=dv, samples_pretrigger=p, domain=dom)
+    nbytes = dut.bytes_per_sample
+    stim = desc.get("stimulus") or make_uart_stimulus(D, p, dv, nbytes, total, Rng(desc["seed"]), desc.get("k", 0))
+    stim = [[r[0] & 1, r[1] & ((1 << total) - 1)] for r in stim]
+    sim_rows = []
+    for r in stim:
+        v, fields = r[1], []
+        for w in widths:
+            fields.append(v & ((1 << w) - 1))
+            v >>= w
+        sim_rows.append([r[0]] + fields)
+    st = dut.ila.stream
+    rows = sim.run_cycles(dut, [dut.trigger] + sigs,
+                          [dut.sampling, dut.complete, dut.tx, st.valid, st.ready, st.payload], sim_rows, domain=dom)
+    fails, stats = monitor_uart(D, p, dv, nbytes, stim, rows)
+    tags = ["kind=uart", "u-depth=%d" % D, "u-divisor=%d" % dv, "u-bytes=%d" % nbytes, "u-pre=%d" % p, "u-domain=" + dom,
+            "u-readouts>=2" if stats["readouts"] >= 2 else "u-readouts=%d" % stats["readouts"],
+            "u-trigger-blocked" if stats["blocked"] else "u-no-blocked-trigger"]
+    return Case([3, D, p, dv, nbytes], stim, rows, fails, tags, desc, ["trigger", "inputs"],
+                ["sampling", "complete", "tx", "ila.stream.valid", "ila.stream.ready", "ila.stream.payload"])
